@@ -75,10 +75,10 @@ def fit_case(draw):
         "epochs": draw(st.integers(0, 4)), "n_paths": draw(st.integers(1, 24)), "n_times": draw(st.integers(1, 3)),
         "validation": draw(st.booleans()), "opt_kind": opt_kind,
         "opt": draw(st.sampled_from(["sgd", "adam", "adadelta", "rmsprop"])),
-        "crit": draw(st.sampled_from(["entropic_rm", "es", "entropic_loss", "mse"])),
+        "crit": draw(st.sampled_from(["entropic_rm", "es", "entropic_loss", "mse", "oce", "oce"])),  # OCE owns a trainable parameter
         "hedge": draw(st.sampled_from(["default", "ul+listed"])),
         "init": draw(st.sampled_from([None, None, 1.1, 0.9])),
-        "pre_mode": draw(st.sampled_from(["train", "eval"])),
+        "pre_mode": draw(st.sampled_from(["train", "eval", "model_eval_only", "model_train_only"])),
         "model_seed": draw(seed_s), "fit_seed": draw(seed_s),
         "second_epochs": draw(st.sampled_from([0, 0, 1, 2])),
     }
@@ -113,8 +113,13 @@ def build(case):
     else:
         inputs = inputs + ["prev_hedge"]
         inner = torch.nn.Sequential(torch.nn.Linear(3 + H, 5), torch.nn.Tanh(), torch.nn.Dropout(0.25), torch.nn.Linear(5, H))
-    crit = {"entropic_rm": EntropicRiskMeasure(), "es": ExpectedShortfall(0.3), "entropic_loss": EntropicLoss(),
-            "mse": torch.nn.MSELoss()}[case["crit"]]
+    from pfhedge.nn.modules.loss import OCE
+
+    def _u(x):
+        return -(-x).exp()
+
+    crit = {"entropic_rm": EntropicRiskMeasure, "es": lambda: ExpectedShortfall(0.3), "entropic_loss": EntropicLoss,
+            "mse": torch.nn.MSELoss, "oce": lambda: OCE(_u)}[case["crit"]]()
     log = []
     hedger = Hedger(Probe(inner, log, deriv), inputs, criterion=crit)
     return ul, deriv, hedge, hedger, log, H
@@ -143,8 +148,24 @@ def check_fit(case, ctx):
     lazy = has_lazy(hedger)
     # an independent copy for the reference loop (same initial parameters / lazy state)
     ul_b, deriv_b, hedge_b, hedger_b, log_b, _ = build(case)
-    getattr(hedger, case["pre_mode"])()
-    getattr(hedger_b, case["pre_mode"])()
+    def set_mode(h):
+        # the hedger and the model inside it may have been put into different modes by the caller
+        m = case["pre_mode"]
+        if m in ("train", "eval"):
+            getattr(h, m)()
+        elif m == "model_eval_only":
+            h.train()
+            h.model.eval()
+        else:
+            h.eval()
+            h.model.train()
+
+    set_mode(hedger)
+    set_mode(hedger_b)
+    own_all = case["crit"] == "oce" and case["opt_kind"] == "instance"  # SGD(hedger.parameters()) as in the fit docstring
+
+    def trained(h):
+        return list(h.parameters()) if own_all else list(h.model.parameters())
 
     base, kw = OPTS[case["opt"]]
     counting = None
@@ -166,7 +187,7 @@ def check_fit(case, ctx):
             deriv_b.simulate(n_paths=1)
             hedger_b.compute_pl(deriv_b, hedge=hedge_b)
             lazy = False
-        counting = make_counting(base)(hedger.model.parameters(), **kw)
+        counting = make_counting(base)(trained(hedger), **kw)
         opt_arg = counting
     fit_kw = dict(hedge=hedge, n_epochs=k, n_paths=n_paths, n_times=n_times, init_state=init_state, verbose=False,
                   validation=validation)
@@ -181,7 +202,7 @@ def check_fit(case, ctx):
         deriv_b.simulate(n_paths=1)
         hedger_b.compute_pl(deriv_b, hedge=hedge_b)
         lazy = False
-    before = None if lazy else [p.detach().clone() for p in hedger.model.parameters()]
+    before = None if lazy else [p.detach().clone() for p in trained(hedger)]
     log.clear()
     torch.manual_seed(case["fit_seed"])
     rng_before = torch.get_rng_state()
@@ -208,7 +229,7 @@ def check_fit(case, ctx):
             return
     else:
         ctx.check(history is None, "C15/history", f"validation off but history is {history!r}")
-    after = [p.detach().clone() for p in hedger.model.parameters()]
+    after = [p.detach().clone() for p in trained(hedger)]
     # ---- optimiser protocol
     if counting is not None:
         steps = [e for e in counting.events if e[0] == "step"]
@@ -276,12 +297,12 @@ def check_fit(case, ctx):
         deriv_b.simulate(n_paths=1)
         hedger_b.compute_pl(deriv_b, hedge=hedge_b)
     with torch.no_grad():
-        for p, s in zip(hedger_b.model.parameters(), snap_params):
+        for p, s in zip(trained(hedger_b), snap_params):
             p.copy_(s)
     if case["opt_kind"] == "default":
         opt_b = torch.optim.Adam(hedger_b.model.parameters())
     else:
-        opt_b = base(hedger_b.model.parameters(), **kw)
+        opt_b = base(trained(hedger_b), **kw)
     torch.set_rng_state(snap_rng)
     hist_b = []
 
@@ -304,7 +325,7 @@ def check_fit(case, ctx):
                 hist.append(v.item())
 
     reference_loop(k, opt_b, hist_b)
-    ref = [p.detach().clone() for p in hedger_b.model.parameters()]
+    ref = [p.detach().clone() for p in trained(hedger_b)]
     if not params_equal(after, ref):
         d = max(float((x - y).abs().max()) for x, y in zip(after, ref))
         ctx.fail("C15/differs-from-reference-loop", f"parameters after fit differ from the explicit loop (max |diff| {d:.3e})",
@@ -319,7 +340,7 @@ def check_fit(case, ctx):
         torch.manual_seed(case["fit_seed"] + 1)
         with ctx.sut("C15/fit"):
             history2 = hedger.fit(deriv, **dict(fit_kw, n_epochs=k2))
-        after2 = [p.detach().clone() for p in hedger.model.parameters()]
+        after2 = [p.detach().clone() for p in trained(hedger)]
         torch.manual_seed(case["fit_seed"] + 1)
         if case["opt_kind"] == "default":
             opt_b = torch.optim.Adam(hedger_b.model.parameters())
@@ -327,7 +348,7 @@ def check_fit(case, ctx):
             opt_b = base(hedger_b.model.parameters(), **kw)
         hist_b2 = []
         reference_loop(k2, opt_b, hist_b2)
-        ref2 = [p.detach().clone() for p in hedger_b.model.parameters()]
+        ref2 = [p.detach().clone() for p in trained(hedger_b)]
         if not params_equal(after2, ref2):
             d = max(float((x - y).abs().max()) for x, y in zip(after2, ref2))
             ctx.fail("C15/second-fit-differs-from-reference-loop",
